@@ -67,11 +67,11 @@ LGM = 'sempler.lganm.'
 PROPS['C01'] = dict(level='proof', functions=[LGM + 'LGANM.sample', LGM + 'LGANM.__init__'], case_filter={LGM + 'LGANM.sample': {'population': True}}, bounded_only=[LGM + '_parse_interventions'], bounded=[], design='DESIGN.md §4 C01', technique=TECH,
                     note=NOTE + ' A-LINALG; L-UNITRI (I - W^T non-singular for a DAG) and L-GAUSS (the law of an acyclic linear-Gaussian SEM is N(mean, cov) with those moments) are cited, not mechanised. The contract of _parse_interventions is assumed at its call sites and checked only by the bounded tier.',
                     claim='LGANM.sample(population=True) is proved, for every model size, every do/noise/shift dict (tuple or scalar parameters, any overlap, {} or None), to work on parameters mu\', var\', W\' that are entry by entry the intervened ones (do overrides noise overrides shift; scalar = variance 0; do-targets lose their incoming edges) and to return mean, cov with (I-W\'^T) mean = mu\' and (I-W\'^T) cov (I-W\'^T)^T = diag(var\'); the model is not modified and the result is fresh.')
-ALL_CONTRACTED = sorted(set(LEAF_REL + STRUCT + TOPO + [U + x for x in ('descendants', 'desc', 'ancestors', 'an', 'transitive_closure', 'chain_component', 'separates', 'mec', 'imec', 'is_chain_graph', 'chain_graph', 'pdag_to_cpdag', 'pdag_to_icpdag', 'has_consistent_extension')] + [U + 'rule_1', U + 'rule_2', U + 'rule_3', U + 'rule_4', U + 'is_consistent_extension', U + 'matrix_block', ND + '__init__', ND + 'marginal', ND + 'conditional', ND + 'regress', ND + 'mse', ND + 'sample',
+ALL_CONTRACTED = sorted(set(LEAF_REL + STRUCT + TOPO + ['sempler.anm.ANM.sample', 'sempler.anm.ANM.__init__'] + [U + x for x in ('descendants', 'desc', 'ancestors', 'an', 'transitive_closure', 'chain_component', 'separates', 'mec', 'imec', 'is_chain_graph', 'chain_graph', 'pdag_to_cpdag', 'pdag_to_icpdag', 'has_consistent_extension')] + [U + 'rule_1', U + 'rule_2', U + 'rule_3', U + 'rule_4', U + 'is_consistent_extension', U + 'matrix_block', ND + '__init__', ND + 'marginal', ND + 'conditional', ND + 'regress', ND + 'mse', ND + 'sample',
                                                             G + 'dag_avg_deg', G + 'dag_full', G + 'intervention_targets', LGM + 'LGANM.__init__', LGM + 'LGANM.sample',
                                                             'sempler.noise.normal', 'sempler.noise.uniform', 'sempler.noise.laplace', 'sempler.noise.zero', 'sempler.functions.null']))
-PROPS['C13'] = dict(level='proof', functions=[G + 'dag_avg_deg', G + 'dag_full', G + 'intervention_targets', LGM + 'LGANM.__init__', LGM + 'LGANM.sample', ND + 'sample'],
-                    kinds=('noninterference', 'no-global-write', 'nondegenerate'), bounded=[], design='DESIGN.md §4 C13', technique=TECH + '; non-interference obligations over the RNG model',
+PROPS['C13'] = dict(level='proof', functions=['sempler.anm.ANM.sample', G + 'dag_avg_deg', G + 'dag_full', G + 'intervention_targets', LGM + 'LGANM.__init__', LGM + 'LGANM.sample', ND + 'sample'],
+                    kinds=('noninterference', 'no-global-write', 'nondegenerate', 'check'), bounded=[], design='DESIGN.md §4 C13', technique=TECH + '; non-interference obligations over the RNG model',
                     note=NOTE + ' A-RNG: a generator is a deterministic function of its seed; draws are functions of (state, arguments). ANM.sample, split_data, add_edges and remove_edges are not under deductive contract yet: they are decided by the bounded stand-in (call, perturb the global generator, call again, compare bytes).',
                     claim='for the APIs under contract the value returned with an int seed (0 included, because `is not None` guards are executed symbolically over all ints) is proved to contain no term depending on numpy\'s global generator state or on fresh entropy, private-generator users never touch the global generator, and unseeded results do depend on the incoming state (non-degenerate).')
 PROPS['C14'] = dict(level='proof', functions=ALL_CONTRACTED, kinds=('frame', 'fresh'), bounded=[], design='DESIGN.md §4 C14', technique=TECH + '; frame and freshness obligations from the heap model',
@@ -83,9 +83,10 @@ PROPS['C04'] = dict(level='proof', functions=[ND + 'sample', LGM + 'LGANM.sample
 PROPS['C01']['bounded'] = ['vkb.c01']
 PROPS['C13']['bounded'] = ['vkb.c13']
 PROPS['C14']['bounded'] = ['vkb.c14']
-PROPS['C02'] = dict(level='exploration', functions=[U + 'topological_ordering', 'sempler.functions.null'], bounded=['vkb.c02'], design='DESIGN.md §4 C02', technique=TECH_B,
-                    note='ANM.sample itself is not yet under deductive contract (user callables and per-call draws need the ghost call log of DESIGN §C02); its rows are re-derived from logged draws on the enumerated domain. topological_ordering (the ordering ANM relies on) and functions.null are proved.',
-                    claim='every column of ANM.sample is recomputed independently from the logged noise / intervention draws and the assignment applied to the parents in increasing index order, for every DAG (0/1 and signed, incl. cancelling columns) up to the bound, every assignment of none/do/shift/noise/do+shift/do+noise to the nodes, non-symmetric assignments of all three result shapes, n in {0,1,5}; the constructor gate and copies are checked too.')
+PROPS['C02'] = dict(level='proof', functions=['sempler.anm.ANM.sample', 'sempler.anm.ANM.__init__', U + 'topological_ordering', 'sempler.functions.null'], bounded=['vkb.c02'],
+                    concrete_skip=['sempler.anm.ANM.sample', 'sempler.anm.ANM.__init__'], design='DESIGN.md §4 C02, A.3', technique=TECH + '; user callables as a ghost call log',
+                    note=NOTE + ' A-CALLABLE: assignment / noise / intervention callables are opaque; the k-th variable\'s calls are logged as ghost functions of k (argument matrix, column map, return value, draws) and each is invoked at most once per pass (obligation). All assignments of a model are assumed to return the same shape kind within one case (scalar, (n,), (n,1)); mixed shapes, None/null assignments and the concrete re-evaluation are covered by the bounded harness vkb.c02.',
+                    claim='ANM.sample is proved (loop invariant over the stored topological ordering, all graphs, sizes, n >= 0, all do/shift/noise dicts) to return an n x p array in which every do-target column is exactly its intervention draw and every other column is the value returned by its assignment plus (original noise + shift | new noise | original noise), where the assignment received exactly one column per parent, in increasing variable index, holding the final sampled values of those parents; the constructor establishes the topological ordering (via the proved contract of topological_ordering), raises ValueError exactly for cyclic graphs and stores copies.')
 PROPS['C17'] = dict(level='exploration', functions=[], bounded=['vkb.c17'], design='DESIGN.md §4 C17', technique=TECH_B,
                     note='split_data is not yet under deductive contract (dict of lists of arrays, generator state threaded through two nested loops); decided on the enumerated domain only.',
                     claim='split_data is run on unique-id data for all listed sizes x ratio vectors (fractions with denominators <= 10, up to 4 folds) x seeds: per-environment multiset partition, fold sizes round(n x ratio) with the last fold taking the rest, determinism in the seed, inputs untouched, ValueError exactly beyond 1e-6.')
